@@ -3,6 +3,8 @@ package shard
 import (
 	"bytes"
 	"fmt"
+	"os"
+	"sort"
 	"strings"
 	"time"
 
@@ -208,7 +210,7 @@ func runC16(r *simkit.R) {
 				lines = append(lines, fmt.Sprintf("[%d,%d] %s -> %v", op.call, op.ret, op.kind, errS(op.err)))
 			}
 		}
-		r.Failf("wc-read", "an acknowledged object was not readable (history not linearizable)", "object o%s: between the acknowledged put and its deletion a read failed; operations on it:\n  %s", bad, strings.Join(lines, "\n  "))
+		r.Failf("wc-read", "an acknowledged object was not readable (history not linearizable)"+pendingMarkTag(fin, bad), "object o%s: between the acknowledged put and its deletion a read failed; operations on it:\n  %s", bad, strings.Join(lines, "\n  "))
 	}
 	// faults stop; let the cache drain, then every present object must be in blob storage
 	w.settle(60 * time.Second)
@@ -263,13 +265,47 @@ func runC16(r *simkit.R) {
 			}
 		})
 		if msg != "" {
-			r.Failf("wc-read", "acknowledged object lost or altered after flush", "%s", msg)
+			r.Failf("wc-read", "acknowledged object lost or altered after flush"+pendingMarkTag(fin, fmt.Sprint(id)), "%s", msg)
 		}
 	}
 	if overlap || flushFailed {
 		r.Nontrivial()
 	}
 }
+
+// pendingMarkTag: a garbage mark of the address was acknowledged before a later put of it.
+func pendingMarkTag(fin []*shOp, key string) string {
+	for _, m := range fin {
+		if m.kind != "mark" || fmt.Sprint(m.id) != key || m.err != nil {
+			continue
+		}
+		for _, p := range fin {
+			if p.kind == "put" && fmt.Sprint(p.id) == key && p.ret > m.call {
+				return " [put accepted on an address with a pending garbage mark]"
+			}
+		}
+	}
+	return ""
+}
+
+// eventsSince summarises which kinds of events happened after index from.
+func eventsSince(ev []string, from int) string {
+	seen := map[string]bool{}
+	var out []string
+	for i := from; i < len(ev); i++ {
+		if !seen[ev[i]] {
+			seen[ev[i]] = true
+			out = append(out, ev[i])
+		}
+	}
+	if len(out) == 0 {
+		return "nothing"
+	}
+	sort.Strings(out)
+	return strings.Join(out, "+")
+}
+
+var errNotReadable =fmt.Errorf("not readable through the metadata path")
 
 func errS(err error) string {
 	if err == nil {
@@ -298,7 +334,7 @@ func propC09() *simkit.Property {
 
 func runC09(r *simkit.R) {
 	cfg := drawShCfg(r, 2)
-	cfg.gcInterval = []time.Duration{time.Second, 3 * time.Second}[r.Intn(2)]
+	cfg.gcInterval = []time.Duration{1300 * time.Millisecond, 3700 * time.Millisecond}[r.Intn(2)]
 	nreg := 3 + r.Intn(3)
 	w := newShWorld(r, cfg, nreg+4)
 	w.layoutSimple(nreg, 3, 1, func() int { return []int{10, 250, 700, 2500}[r.Intn(4)] })
@@ -352,12 +388,33 @@ func runC09(r *simkit.R) {
 	crashAt := 1 + r.Intn(60)
 	boundaries := 0
 
+	putsInFlight := map[int]int{}
+	var events []string // flush-put, resync, restart, crash: what happened, in order
+	collectedAt := map[int]int{}
+	collectedSeq := map[int]uint64{}
 	observe := func(where string) {
-		// runs exclusively (nothing in flight)
+		if strings.HasPrefix(where, "x:") || where == "crash-restart" || strings.HasPrefix(where, "final ") {
+			events = append(events, strings.TrimPrefix(strings.TrimPrefix(where, "x:"), "final "))
+		}
 		for id := 0; id < nreg; id++ {
 			a := w.addr(id)
 			inB, inW := w.physical(id)
-			_, gerr := w.sh.Get(a, false)
+			// metadata-path readability without going through the gated proxies
+			var gerr error = errNotReadable
+			metaAvail := false
+			if ok, err := w.sh.metaBase.Exists(a, false); err == nil && ok {
+				metaAvail = true
+				if inB || inW {
+					gerr = nil
+				}
+			}
+			if os.Getenv("VERIF_DEBUG") != "" {
+				ex, exErr := w.sh.metaBase.Exists(a, false)
+				fmt.Printf("DEBUG observe@%s o%d: blob=%v wc=%v exists=%v/%v acked=%v collected=%q putsInFlight=%d\n", where, id, inB, inW, ex, exErr, removalAcked[id], collected[id], putsInFlight[id])
+			}
+			if putsInFlight[id] > 0 {
+				continue
+			}
 			if why, was := collected[id]; was {
 				var how string
 				switch {
@@ -371,13 +428,20 @@ func runC09(r *simkit.R) {
 					how = "bytes are back in the write-cache"
 				}
 				if how != "" {
-					sig := "removed object is back: " + how
+					kind := where
+					if strings.HasPrefix(where, "a quiescent point") {
+						kind = "peek"
+					}
+					sig := fmt.Sprintf("removed object is back: %s [observed at %s; since it was seen gone: %s]", how, kind, eventsSince(events, collectedAt[id]))
 					w.r.Failf("resurrection", sig, "o%d was removed (%s) and not stored anew, but at %s %s", id, why, where, how)
 				}
 				continue
 			}
-			if removalAcked[id] && !inB && !inW && gerr != nil {
+			// gone = removal acknowledged, the metadata no longer lists it as available, no bytes anywhere
+			if removalAcked[id] && !inB && !inW && !metaAvail {
 				collected[id] = "removal acknowledged; observed gone at " + where
+				collectedAt[id] = len(events)
+				collectedSeq[id] = w.k.Seq()
 				nCollected++
 			}
 		}
@@ -394,6 +458,7 @@ func runC09(r *simkit.R) {
 				// a new upload is invoked: the address may legitimately come back
 				delete(removalAcked, op.id)
 				delete(collected, op.id)
+				putsInFlight[op.id]++
 			}
 			if strings.HasPrefix(op.kind, "x:") {
 				return op.kind, func(*simkit.Task) {
@@ -431,6 +496,9 @@ func runC09(r *simkit.R) {
 				return
 			}
 			r.Op("%s -> %v", op, errS(op.err))
+			if op.kind == "put" {
+				putsInFlight[op.id]--
+			}
 			if op.err == nil {
 				switch op.kind {
 				case "tomb":
@@ -438,8 +506,13 @@ func runC09(r *simkit.R) {
 				case "mark", "drop":
 					removalAcked[op.id] = true
 				case "get", "getbytes":
-					if why, was := collected[op.id]; was {
-						r.Failf("resurrection", "removed object is back: "+op.kind+" succeeds", "o%d was removed (%s) and not stored anew, but %s returned it", op.id, why, op.kind)
+					// (a read invoked before the address was seen gone may linearize before the removal)
+					if why, was := collected[op.id]; was && t.Call > collectedSeq[op.id] {
+						how := "Get succeeds"
+						if op.kind == "getbytes" {
+							how = "bytes are back in blob storage (metadata-less read succeeds)"
+						}
+						r.Failf("resurrection", fmt.Sprintf("removed object is back: %s [observed at %s; since it was seen gone: %s]", how, op.kind, eventsSince(events, collectedAt[op.id])), "o%d was removed (%s) and not stored anew, but %s returned it", op.id, why, op.kind)
 					}
 				case "flush":
 					if len(collected) > 0 {
@@ -448,8 +521,12 @@ func runC09(r *simkit.R) {
 				}
 			}
 		},
+		peek: func() { observe("a quiescent point of the schedule") },
 		boundary: func(key string) {
 			boundaries++
+			if strings.HasPrefix(key, "blob:put") {
+				events = append(events, "blob-put")
+			}
 			if crashArmed && boundaries == crashAt {
 				crashArmed = false
 				// crash: what the disk holds now survives; the running instance is abandoned
